@@ -1388,8 +1388,13 @@ class Linker:
         self.__globals = {}
         self.__loader = loader
         self.__pendingImports = set()
+        self.__loadedImports = set()
 
     def AddModule(self, module: Module):
+        if any([module is m for m in self.__modules]):
+            # Already part of the program (added explicitly and imported)
+            return
+
         self.__modules.append(module)
         for k, v in module.Functions.items():
             assert k not in self.__functions
@@ -1402,8 +1407,15 @@ class Linker:
         self.__pendingImports.update(module.Imports)
 
     def Link(self) -> Program:
-        # add all imported modules
-        for importedModule in self.__pendingImports:
+        # add all imported modules. Adding a module may add further imports,
+        # so this is a work list; every module is loaded only once, no matter
+        # how many modules import it
+        while self.__pendingImports:
+            importedModule = self.__pendingImports.pop()
+            if importedModule in self.__loadedImports:
+                continue
+
+            self.__loadedImports.add(importedModule)
             self.AddModule(self.__loader.Load(importedModule))
 
         return Program(self.__functions, self.__globals)
